@@ -206,10 +206,40 @@ def check_merge_matching(matcher, pred, refa, order):
             ok = valid(sorted(ps, key=lambda p: singles_f[p], reverse=not dec))
             if ok:
                 ctx.count("C14.accepted_in_another_order")
-        if not ok and len(ps) > 16:
+        if not ok and len(ps) > 16 and exact:
+            # IoU / Dice of a union of pairwise disjoint fragments is additive: with i = voxels inside the reference,
+            # o = voxels outside, adding x to T improves the score iff i_x * (|R| + O_T) > o_x * I_T, i.e. iff x's own
+            # ratio i_x / o_x exceeds the current IoU.  The IoU only rises along a valid process, so if any order is
+            # valid, the one that adds the remaining fragments by ascending ratio after the same seed is valid too:
+            # an exact decision with one pass per eligible seed
+            from fractions import Fraction
+
+            io = {p: (len(pi[p] & R), len(pi[p] - R)) for p in ps}
+
+            def ratio(p):
+                i_, o_ = io[p]
+                return Fraction(i_, o_) if o_ else Fraction(10**18)
+
+            for p0 in ps:
+                if not eligible(sc(R, pi[p0])):
+                    continue
+                I_, O_ = io[p0]
+                good = True
+                for p in sorted((q for q in ps if q != p0), key=ratio):
+                    i_, o_ = io[p]
+                    if not i_ * (len(R) + O_) > o_ * I_:
+                        good = False
+                        break
+                    I_, O_ = I_ + i_, O_ + o_
+                if good:
+                    ok = True
+                    ctx.count("C14.accepted_in_another_order")
+                    break
+            ctx.count("C14.many_fragments_decided_by_ratio_order")
+        elif not ok and len(ps) > 16:
             ctx.count("C14.skipped_too_many_fragments")
             continue
-        if not ok:
+        if not ok and len(ps) <= 16:
             # is there any order that is a seed-then-strictly-improving process?  (DFS with memoised dead ends)
             dead = set()
 
